@@ -21,6 +21,35 @@ PID = "C07"
 KNOWN_LEVELS = "C02-integer-levels"
 KNOWN_FNEXT = "C07-fnext-drops-self"
 KNOWN_UPPER = "C07-upper-rank-tie"
+KNOWN_SHARED = "C07-fnext-shared-code"
+
+
+def _native_fnext_shared():
+    import sys
+
+    from ovld import Ovld
+
+    ns = {}
+    src = ("def mk(m):\n    def h(x: int):\n        return (m, F.next(x))\n    return h\n"
+           "def base(x: int):\n    return 'base'\n")
+    import linecache
+
+    linecache.cache["<c07-fnext-shared>"] = (len(src), None, src.splitlines(True), "<c07-fnext-shared>")
+    exec(compile(src, "<c07-fnext-shared>", "exec"), ns)
+    ov = Ovld()
+    ov.register(ns["mk"](1), priority=2)
+    ov.register(ns["mk"](2), priority=1)
+    ov.register(ns["base"])
+    ns["F"] = ov.dispatch
+    old = sys.getrecursionlimit()
+    sys.setrecursionlimit(300)
+    try:
+        return ov.dispatch(1) != (1, (2, "base"))
+    except RecursionError:
+        return True
+    finally:
+        sys.setrecursionlimit(old)
+
 
 
 def _native_upper_tie():
@@ -67,7 +96,7 @@ def _native_fnext_self():
         return "missing 1 required positional argument" in str(e)
 
 
-NATIVE_WITNESSES = {"c07_fnext_self": _native_fnext_self, "c07_upper_tie": _native_upper_tie}
+NATIVE_WITNESSES = {"c07_fnext_self": _native_fnext_self, "c07_upper_tie": _native_upper_tie, "c07_fnext_shared": _native_fnext_shared}
 
 
 def make_world(ex, shape, real):
@@ -109,6 +138,11 @@ class FactorySet:
         "        LOG.append((m, (x,), {}, None))\n"
         "        return call_next(x)\n"
         "    return h\n"
+        "def mk_fnext(m):\n"
+        "    def h(x):\n"
+        "        LOG.append((m, (x,), {}, None))\n"
+        "        return F.next(x)\n"
+        "    return h\n"
         "def mk_ret(m):\n"
         "    def h(x):\n"
         "        LOG.append((m, (x,), {}, None))\n"
@@ -130,7 +164,7 @@ class FactorySet:
         hs = []
         n = self.shape["n"]
         for m, md in enumerate(self.shape["methods"]):
-            h = (ns["mk_next"] if md["kind"] == "next" else ns["mk_ret"])(m)
+            h = ns[{"next": "mk_next", "fnext": "mk_fnext", "ret": "mk_ret"}[md["kind"]]](m)
             t = md["pos"][0]
             h.__annotations__ = {"x": W.K[t] if t != n else object}
             hs.append(h)
@@ -184,6 +218,8 @@ def make_run(W, shape, known_active=None):
         args0 = tuple(shape["args"])
         del LOG[:]
         term = None
+        _old_limit = sys.getrecursionlimit()
+        sys.setrecursionlimit(250)     # a delegation loop shows up as RecursionError; keep it shallow
         try:
             res = call(*[inst(c) for c in args0])
             term = ("ret", res[1]) if isinstance(res, tuple) and res[0] == "ret" else ("?", repr(res))
@@ -192,10 +228,18 @@ def make_run(W, shape, known_active=None):
             term = ("AMB",) if msg.startswith("Ambiguous resolution") else ("NOM",) if msg.startswith("No method") else ("EXC", msg[:80])
         except RecursionError:
             term = ("LOOP",)
+        finally:
+            sys.setrecursionlimit(_old_limit)
         chain = [e[0] for e in LOG]
-        info = dict(chain=chain, end=list(term))
+        info = dict(chain=chain[:12] + (["..."] if len(chain) > 12 else []), end=list(term))
         if term[0] in ("EXC", "?", "LOOP"):
             kn = []
+            twins = {m for m, md in enumerate(methods) if md["kind"] == "fnext"
+                     and any(o != m and od["kind"] == "fnext" and od["pos"] == md["pos"] for o, od in enumerate(methods))}
+            if (KNOWN_SHARED in known_active and shape.get("factory") and term[0] == "LOOP" and twins & set(chain[-4:])):
+                # recorded: f.next identifies its caller by code object; two f.next methods made by one def statement with the
+                # same signature string have equal code objects (the loop runs through one of them)
+                kn = [(KNOWN_SHARED, True)]
             if (KNOWN_FNEXT in known_active and shape.get("selfarg") and term[0] == "EXC" and chain
                     and methods[chain[-1]]["kind"] == "fnext" and "missing 1 required positional argument" in term[1]):
                 kn = [(KNOWN_FNEXT, True)]  # recorded: f.next from a method with self drops the instance
@@ -330,7 +374,7 @@ def gen_shapes(tier, seed):
             fam_self.append(dict(n=n, selfarg=True, methods=[dict(pos=[t], kind=k) for t, k in zip(mt, ks)], args=[0]))
     fam_fact = []
     for mt in itertools.product(range(n + 1), repeat=3):
-        for ks in itertools.product(["ret", "next"], repeat=3):
+        for ks in itertools.product(["ret", "next", "fnext"], repeat=3):
             fam_fact.append(dict(n=n, factory=True, methods=[dict(pos=[t], kind=k) for t, k in zip(mt, ks)], args=[0]))
     total = len(shapes) + len(fam_fwd) + len(fam2) + len(fam4) + len(fam_self) + len(fam_fact)
     for f in (shapes, fam_fwd, fam2, fam4, fam_self, fam_fact):
